@@ -108,7 +108,9 @@ pub fn check(c: &PraceCase, ctx: &mut CaseCtx) -> Result<(), Fail> {
             }
         }));
     }
-    let sites = ["dtx.part.prepare.locking", "dtx.part.prepare.locked", "dtx.part.commit.applied", "dtx.part.abort.undone"];
+    // the store's own yield points let the scheduler switch threads BETWEEN the writes of a commit
+    // or of an abort's undo (key locks must cover that whole stretch)
+    let sites = ["dtx.part.prepare.locking", "dtx.part.prepare.locked", "dtx.part.commit.applied", "dtx.part.abort.undone", "store.meta.set", "store.put.applied"];
     let report = sched::run(scripts, &c.schedule, &sites, Duration::from_millis(40));
     if let Some((t, m)) = report.panics.first() {
         ctx.fail("prace:panic-in-thread", format!("thread {t} panicked: {m}"))?;
